@@ -24,8 +24,17 @@ from .common import LIB_ROOT
 M64 = (1 << 64) - 1
 
 KIND_CODE = {'L': 1, 'F': 2, 'R': 3, 'Cg': 4, 'Ch': 5, 'Cm': 6, 'Cs': 7, 'Cx': 8, 'O': 9,
-             'D+': 10, 'D-': 11, 'E': 12}
-HOT = frozenset(('Cm', 'Cs', 'F', 'D+'))
+             'D+': 10, 'D-': 11, 'E': 12, 'H': 13}
+HOT = frozenset(('Cm', 'Cs', 'F', 'D+', 'H'))
+_HOTLINES = None
+
+
+def hotlines():
+    global _HOTLINES
+    if _HOTLINES is None:
+        from .hotlines import hot_lines
+        _HOTLINES = hot_lines(LIB_ROOT)
+    return _HOTLINES
 
 
 class AbortInjected(BaseException):
@@ -47,6 +56,12 @@ class Scheduler(object):
         self.mean_gap = int(self.spec.get('mean_gap', 50))
         self.budget = int(self.spec.get('budget', 8))
         self.bias = float(self.spec.get('bias', 0.0))
+        self.probe = float(self.spec.get('probe', 0.0))
+        self.return_to = None
+        self.probe_runner = None
+        self.hot_pending = [0] * ntasks
+        self.probe_switches = 0
+        self.hot_points = 0
         self.pick = self.spec.get('pick', 'uniform')
         self.prio = list(self.spec.get('prio', range(ntasks)))
         self.segments_in = [list(s) for s in self.spec.get('segments', [])]
@@ -136,18 +151,29 @@ class Scheduler(object):
                     else:
                         self._close_segment(tid)
             return
+        if self.return_to is not None and tid == self.probe_runner and kind == 'O':
+            # atomicity probe: the task that was let in has finished one whole operation
+            back, self.return_to, self.probe_runner = self.return_to, None, None
+            if back in self.runnable and back != tid:
+                self._switch(tid, back)
+                return
         do = False
+        hot = False
         self.countdown -= 1
         if self.budget > 0:
             if self.countdown <= 0:
                 do = True
             elif self.bias > 0.0 and kind in HOT and self.rng.random() < self.bias:
-                do = True
+                do = hot = True
         if do and len(self.runnable) > 1:
             self.countdown = self._gap()
             self.budget -= 1
             nxt = self._pick_next(tid)
             if nxt is not None and nxt != tid:
+                if hot and self.probe > 0.0 and self.return_to is None \
+                        and self.rng.random() < self.probe:
+                    self.return_to, self.probe_runner = tid, nxt
+                    self.probe_switches += 1
                 self._switch(tid, nxt)
         elif do:
             self.countdown = self._gap()
@@ -173,6 +199,7 @@ class Scheduler(object):
     # ---------------------------------------------------------------- tracing
     def _make_tracer(self, tid):
         sched = self
+        hot_files = hotlines() if self.trace else {}
 
         def local(frame, event, arg):
             if event == 'line':
@@ -184,7 +211,17 @@ class Scheduler(object):
                         sched.abort_fired[tid] = True
                         raise AbortInjected('abort injected at %s:%d' % (
                             frame.f_code.co_filename[len(LIB_ROOT):], frame.f_lineno))
-                sched.yield_point(tid, 'L', frame.f_lineno)
+                pend = sched.hot_pending[tid]
+                if pend:
+                    sched.hot_pending[tid] = pend - 1
+                    sched.hot_points += 1
+                    sched.yield_point(tid, 'H', frame.f_lineno)
+                else:
+                    sched.yield_point(tid, 'L', frame.f_lineno)
+                if hot_files:
+                    hs = hot_files.get(frame.f_code.co_filename)
+                    if hs is not None and frame.f_lineno in hs:
+                        sched.hot_pending[tid] = 2
             elif event == 'return' and frame.f_code.co_name == 'dea3':
                 sched.in_dea3[tid] -= 1
                 sched.yield_point(tid, 'D-')
@@ -246,6 +283,13 @@ class Scheduler(object):
     def _task_done(self, tid):
         self._close_segment(tid, end=True)
         self.runnable.discard(tid)
+        if self.probe_runner == tid and self.return_to in self.runnable:
+            back, self.return_to, self.probe_runner = self.return_to, None, None
+            self.current = back
+            self.sems[back].release()
+            return
+        if self.return_to == tid:
+            self.return_to = self.probe_runner = None
         if self.mode == 'replay' and self.seg_pos < len(self.segments_in) \
                 and self.segments_in[self.seg_pos][0] == tid:
             self.seg_pos += 1
@@ -264,5 +308,6 @@ class Scheduler(object):
             'kind_counts': dict(self.kind_counts),
             'probe_switch_in_dea3': self.probe_switch_in_dea3,
             'probe_switch_in_miss': self.probe_switch_in_miss,
+            'hot_points': self.hot_points, 'probe_switches': self.probe_switches,
             'abort_fired': list(self.abort_fired), 'errors': list(self.errors),
         }
